@@ -258,9 +258,9 @@ def leafUnsupported (st : State) (t : Table) (l : Leaf) : Bool :=
 /-- the reference regex engine is quadratic in the pattern length on repetitive texts: patterns beyond 120
     characters are outside the compared input class -/
 def valTooLong : Val → Bool
-  | .s v => v.length > 400
-  | .sl v => v.any (·.length > 400)
-  | .cv _ vs => vs.any (·.length > 400)
+  | .s v => v.length > 1000
+  | .sl v => v.any (·.length > 1000)
+  | .cv _ vs => vs.any (·.length > 1000)
   | _ => false
 
 def longRegex (st : State) (text : String) : Bool :=
